@@ -300,6 +300,18 @@ class GraphLoop:
                     if k not in g.succ[s] and hint.allowed(g.cfg, ctx, iv):
                         needs.setdefault(di, set()).add((s, iv))
             if needs:
+                # never overshoot the budgets within one wave
+                room = self.total_budget - sum(g.nedges for g in self.duts)
+                for di in list(needs):
+                    g = self.duts[di]
+                    lim = max(0, min(self.spec_budget - g.nedges, room))
+                    if len(needs[di]) > lim:
+                        needs[di] = set(sorted(needs[di])[:lim])
+                    room -= len(needs[di])
+                    if not needs[di]:
+                        del needs[di]
+                if not needs:
+                    break
                 n, _ = self._compute(needs)
                 total += n
                 for g in self.duts:
